@@ -8,7 +8,7 @@ use curve25519_dalek::edwards::EdwardsPoint;
 use curve25519_dalek::montgomery::MontgomeryPoint;
 use curve25519_dalek::ristretto::RistrettoPoint;
 use curve25519_dalek::scalar::Scalar;
-use curve25519_dalek::traits::MultiscalarMul;
+use curve25519_dalek::traits::{IsIdentity, MultiscalarMul};
 use sha2::{Digest, Sha512};
 use std::io::Read;
 use subtle::ConstantTimeEq;
@@ -41,6 +41,10 @@ pub const OPS: &[&str] = &[
     "sc_add", "sc_sub", "sc_mul", "sc_neg", "sc_invert", "sc_reduce32", "sc_reduce64", "sc_batch_invert", "sc_from_canonical",
     "ed_add", "ed_compress", "ed_cteq", "mul_base", "var_base", "msm3", "mt_mul", "x25519", "x_public", "x_dh",
     "rs_compress", "rs_from_uniform", "ed_keygen", "ed_sign", "ed_sign_ph",
+    // second group: equality / predicates on secret points that may carry a torsion component, and the
+    // remaining group operations (added after the seeded change C10b, a short-circuit in ct_eq)
+    "ed_cteq_t", "ed_is_identity", "ed_is_small_order", "ed_sub", "ed_double", "ed_neg", "ed_to_montgomery", "ed_mul_clamped",
+    "mul_base_clamped", "rs_cteq", "rs_add", "rs_mul", "rs_msm2", "mt_cteq", "sc_cteq", "sc_eq",
 ];
 
 fn main() {
@@ -76,6 +80,11 @@ fn main() {
     let sec_scalar_nz = if sec_scalar == Scalar::ZERO { Scalar::ONE } else { sec_scalar };
     let sec_point = EdwardsPoint::mul_base(&sec_scalar);
     let sec_rpoint = RistrettoPoint::mul_base(&sec_scalar);
+    // a secret point outside the prime-order subgroup: byte 32 of the secret picks the torsion component
+    let sec_point_t = sec_point + curve25519_dalek::constants::EIGHT_TORSION[(s64[32] & 7) as usize];
+    let pub_rpoint = RistrettoPoint::mul_base(&Scalar::from(0x1234567u64));
+    let sec_u = sec_point.to_montgomery();
+    let pub_u2 = pub_point.to_montgomery();
     let eph = x25519_dalek::StaticSecret::from(s32);
     let sk = ed25519_dalek::SigningKey::from_bytes(&s32);
     let run = |op: &str| -> Vec<u8> {
@@ -123,6 +132,22 @@ fn main() {
                 out = sk.sign(msg).to_bytes().to_vec();
             }
             "ed_sign_ph" => out = sk.sign_prehashed(Sha512::new().chain_update(msg), Some(b"ctx")).unwrap().to_bytes().to_vec(),
+            "ed_cteq_t" => out = vec![sec_point_t.ct_eq(&pub_point).unwrap_u8()],
+            "ed_is_identity" => out = vec![sec_point_t.is_identity() as u8],
+            "ed_is_small_order" => out = vec![sec_point_t.is_small_order() as u8],
+            "ed_sub" => out = (pub_point - sec_point_t).compress().to_bytes().to_vec(),
+            "ed_double" => out = (sec_point_t + sec_point_t).compress().to_bytes().to_vec(),
+            "ed_neg" => out = (-sec_point_t).compress().to_bytes().to_vec(),
+            "ed_to_montgomery" => out = sec_point_t.to_montgomery().to_bytes().to_vec(),
+            "ed_mul_clamped" => out = pub_point.mul_clamped(s32).compress().to_bytes().to_vec(),
+            "mul_base_clamped" => out = EdwardsPoint::mul_base_clamped(s32).compress().to_bytes().to_vec(),
+            "rs_cteq" => out = vec![sec_rpoint.ct_eq(&pub_rpoint).unwrap_u8()],
+            "rs_add" => out = (sec_rpoint + pub_rpoint).compress().to_bytes().to_vec(),
+            "rs_mul" => out = (pub_rpoint * sec_scalar).compress().to_bytes().to_vec(),
+            "rs_msm2" => out = RistrettoPoint::multiscalar_mul([sec_scalar, pub_scalar].iter(), [pub_rpoint, RISTRETTO_BASEPOINT_POINT].iter()).compress().to_bytes().to_vec(),
+            "mt_cteq" => out = vec![sec_u.ct_eq(&pub_u2).unwrap_u8()],
+            "sc_cteq" => out = vec![sec_scalar.ct_eq(&pub_scalar).unwrap_u8()],
+            "sc_eq" => out = vec![(sec_scalar == pub_scalar) as u8],
             // deliberately variable-time control: the tracer must see a difference here
             "control_vartime" => out = EdwardsPoint::vartime_double_scalar_mul_basepoint(&sec_scalar, &pub_point, &pub_scalar).compress().to_bytes().to_vec(),
             _ => {
